@@ -178,6 +178,12 @@ fn parse_stacktrace(content: &str) -> Option<StackTrace<'_>> {
     if stacktrace.exception.is_some() || !stacktrace.frames.is_empty() {
         Some(stacktrace)
     } else {
+        // Nothing usable at the top level. Take the cause chain that was built apart level by
+        // level, so that discarding a very deep one does not recurse once per level.
+        let mut cause = stacktrace.cause.take();
+        while let Some(mut level) = cause {
+            cause = level.cause.take();
+        }
         None
     }
 }
